@@ -18,7 +18,7 @@ LEVEL = "exploration"
 RULE = (
     "messages drawn from the full grammar (harness/gen.py msg_spec: all kinds, every subset of optional attributes, "
     "0..5 children, XML-representable text); for each message an independently rebuilt copy and EVERY single-point "
-    "perturbation (each attribute changed/dropped/added, text changed, child text empty instead of absent, one character in the "
+    "perturbation (each attribute changed/dropped/added, Python-float attributes that differ only beyond the sixth decimal, text changed, child text empty instead of absent, one character in the "
     "middle of a 1200- / 9000-character child value changed, each child index changed/renamed/dropped/"
     "duplicated/swapped with its neighbour, kind swapped for a sibling kind with the same fields) is compared with "
     "== and != in both orders against equality of the expected structural views computed from the specs. A case (one "
